@@ -59,7 +59,7 @@ class Relationship(_RelationshipObject):
         super(Relationship, self).__init__(**kwargs)
 
     def _check_object_constraints(self):
-        super(self.__class__, self)._check_object_constraints()
+        super(Relationship, self)._check_object_constraints()
 
         start_time = self.get('start_time')
         stop_time = self.get('stop_time')
@@ -109,7 +109,7 @@ class Sighting(_RelationshipObject):
         super(Sighting, self).__init__(**kwargs)
 
     def _check_object_constraints(self):
-        super(self.__class__, self)._check_object_constraints()
+        super(Sighting, self)._check_object_constraints()
 
         first_seen = self.get('first_seen')
         last_seen = self.get('last_seen')
